@@ -68,6 +68,19 @@ def run_case(spec):
     counters = {'cases': 1}
     try:
         paths = cv.write_case(case, wd)
+        if spec.get('index_ref') and rng.random() < 0.5:
+            # a proteome entry with an internal stop symbol (the index must treat its transcript exactly like the raw files do)
+            recs_ = drivers.read_fasta(f'{wd}/proteome.fasta')
+            cand = [i for i, (h_, s_) in enumerate(recs_) if len(s_) > 8]
+            if cand:
+                i_ = rng.choice(cand)
+                h_, s_ = recs_[i_]
+                k_ = rng.randint(3, len(s_) - 3)
+                recs_[i_] = (h_, s_[:k_] + '*' + s_[k_ + 1:])
+                with open(f'{wd}/proteome.fasta', 'w') as fh:
+                    for h_, s_ in recs_:
+                        fh.write(f'>{h_}\n{s_}\n')
+                counters['proteome_with_internal_stop'] = 1
         try:
             fa, _ = cvmon.execute(case, wd, paths, out='base.fasta')
         except Exception:
